@@ -4,7 +4,7 @@ repeated pull-backs through the same retained graph (two losses sharing one tran
 import torch
 
 
-def pull_variants(rng, outs, ins, newcot, repeats=2):
+def pull_variants(rng, outs, ins, newcot, repeats=2, second=None):
     n = len(outs)
     plans = [('every output has a cotangent', [True] * n)]
     if n > 1:
@@ -29,6 +29,17 @@ def pull_variants(rng, outs, ins, newcot, repeats=2):
         eff = [c if u else torch.zeros_like(c) for c, u in zip(cots, used)]
         last = k == len(plans) - 1
         if k == 1:
+            if second is not None:
+                # the pull-back g -> J^T g is itself a (linear) function of the cotangents; differentiated once more along a
+                # direction u it must give J u (gradient penalties, Hessian-vector products, double-backward tricks for jvp)
+                # (the cotangents are results of an upstream computation, as in a real graph - not leaves)
+                cr = [c.clone().requires_grad_(True) for c in cots]
+                g1 = torch.autograd.grad(outs, ins, [c * 1.0 for c in cr], allow_unused=True, retain_graph=True, create_graph=True)
+                live = [(i, g) for i, g in enumerate(g1) if g is not None and g.requires_grad]
+                if live:
+                    us = [newcot(g) for _, g in live]
+                    jv = torch.autograd.grad([g for _, g in live], cr, us, allow_unused=True, retain_graph=True)
+                    second([i for i, _ in live], us, [torch.zeros_like(c) if j is None else j.detach() for j, c in zip(jv, cr)])
             grads = torch.autograd.grad(outs, ins, cots, allow_unused=True, retain_graph=True, create_graph=True)
             grads = tuple(None if g is None else g.detach() for g in grads)
         elif all(used):
